@@ -385,7 +385,7 @@ func main() {
 	}
 	var b strings.Builder
 	b.WriteString("(* GENERATED by /verif/tools/xlate from ui/ui.go on every run of the C08 check. Do not edit. *)\n")
-	b.WriteString("From Servitor Require Import Base Conc.\n\n")
+	b.WriteString("From Servitor Require Import Base Conc.\nFrom Servitor.Facts Require Import ConcFacts.\n\n")
 	names := []string{}
 	for i, fnc := range fns {
 		recv := "s"
@@ -400,7 +400,13 @@ func main() {
 	fmt.Fprintf(&b, "Definition ui_prog : program := [%s].\n\n", strings.Join(names, "; "))
 	b.WriteString("(* per-function verdicts, printed for the replay when the discipline check fails *)\n")
 	b.WriteString("Eval vm_compute in (map (check_func ui_prog) ui_prog).\n\n")
-	b.WriteString("Theorem ui_lock_discipline : lock_check ui_prog = true.\nProof. vm_compute. reflexivity. Qed.\nPrint Assumptions ui_lock_discipline.\n")
+	b.WriteString("Theorem ui_lock_discipline : lock_check ui_prog = true.\nProof. vm_compute. reflexivity. Qed.\nPrint Assumptions ui_lock_discipline.\n\n")
+	b.WriteString("(* every non-exported method terminates (no recursion among them), so goroutines can always be spawned *)\n")
+	b.WriteString("Theorem ui_calls_terminate : calls_terminate ui_prog (length ui_prog) = true.\nProof. vm_compute. reflexivity. Qed.\nPrint Assumptions ui_calls_terminate.\n\n")
+	b.WriteString("(* the general theorems instantiated on THIS source: every interleaving of key handlers, the resize poller and\n   background completions is free of unprotected accesses and overlapping frames, and can always make progress *)\n")
+	b.WriteString("Definition ui_safety := fun pool pool' => safety_fact ui_prog pool pool' ui_lock_discipline.\n")
+	b.WriteString("Definition ui_progress := fun pool pool' i s => progress_fact ui_prog pool pool' ui_lock_discipline i s\n  (calls_terminate_fact ui_prog (length ui_prog) ui_lock_discipline ui_calls_terminate).\n")
+	b.WriteString("Check ui_safety.\nCheck ui_progress.\nPrint Assumptions ui_safety.\nPrint Assumptions ui_progress.\n")
 	if err := os.WriteFile(os.Args[2], []byte(b.String()), 0o644); err != nil {
 		fmt.Fprintln(os.Stderr, err)
 		os.Exit(1)
